@@ -196,14 +196,14 @@ func (p ICMP6RouterSolicitation) Checksum() int { return int(binary.BigEndian.Ui
 func (p ICMP6RouterSolicitation) SourceLLA() net.HardwareAddr {
 	// RS options may containg a single SourceLLA option
 	// len is therefore: 26 = 4 bytes header + 4 bytes reserved + 2 bytes option header + 16 IP bytes SourceLLA option
-	if len(p) >= 26 && p[8] == 1 && p[9] == 3 { // type == SourceLLA & 24 bytes len (3 * 8bytes)
-		return net.HardwareAddr(p[10 : 10+16])
+	if len(p) >= 16 && p[8] == 1 && p[9] == 1 { // first option: type == SourceLLA, length 1 (8 bytes)
+		return net.HardwareAddr(p[10 : 10+6])
 	}
 	return nil
 }
 
 func (p ICMP6RouterSolicitation) Options() (NewOptions, error) {
-	if len(p) <= 24 {
+	if len(p) <= 8 {
 		return NewOptions{}, nil
 	}
 	/**
@@ -214,7 +214,7 @@ func (p ICMP6RouterSolicitation) Options() (NewOptions, error) {
 		}
 	}
 	**/
-	return newParseOptions(p[24:])
+	return newParseOptions(p[8:]) // options follow type, code, checksum and 4 reserved bytes
 }
 
 func (p ICMP6RouterSolicitation) String() string {
